@@ -203,6 +203,28 @@ func (e *Evidence) Plan(c *Ctx) []hist.TxSpec {
 			}
 		}
 	}
+	// a validator unstakes to just below the minimum and is accused in the same block: the block end that purges
+	// it from the set is the one that finds it guilty
+	if e.n == 30 || e.n == 41 {
+		for _, t := range []*world.Validator{gen[0], gen[1]} {
+			if !active(t) || !active(gen[2]) || !active(gen[3]) {
+				continue
+			}
+			min := c.W.P.MinSelfDelegation
+			if c.W.P.Frankenstein != 0 && c.H > c.W.P.Frankenstein {
+				min = 500000 // (the fork block's staking options)
+			}
+			cur := StakeOf(c.S, t.ValAddr).Int64()
+			if min <= 0 || cur < min {
+				continue
+			}
+			out = append(out, Build(c, "UNSTAKE", &staking.Unstake{ValidatorAddress: t.ValAddr, StakeAddress: t.Stake.Addr, Stake: txb.Amt("OLT", fmt.Sprint(cur-min+1))}, "unstake to just below the minimum, right before being accused", &t.Stake, ConsAccount(t)))
+			r := &allegReq{id: fmt.Sprintf("%s-p-%d", e.Tag, c.H), target: t, plan: "guilty", created: c.H, voted: map[string]bool{}}
+			e.reqs = append(e.reqs, r)
+			out = append(out, e.allege(c, gen[3], r, "allegation against a validator that has just unstaked below the minimum (purge and verdict fall in one block)"))
+			return out
+		}
+	}
 	// later rounds: new allegations now and then against the smallest active validator
 	if e.n > 12 && e.n%11 == 0 {
 		var acts []*world.Validator
